@@ -115,6 +115,7 @@ def run_world(world, tier="quick", timeout=120.0):
         "observed": sum(r["stats"]["observed"] for r in results),
         "quiescent": sum(r["sched"]["quiescent"] for r in results),
         "lib_calls": p0["lib_calls"], "flt_calls": p0["flt_calls"],
+        "unblocked": sum(r["sched"].get("unblocked", 0) for r in results),
         "cells": p0.get("cells", []),
         "raised_in_dispatch": p0.get("raised_in_dispatch", []),
         "variants": p0.get("variants", []),
